@@ -424,4 +424,18 @@ def c39(ctx):
                         "session replies are made deterministic by phases closed with PINGREQ/PINGRESP sentinels and session-private topics"]
 
 
-FAMILY = {"C41": c41, "C31": c31, "C37": c37, "C39": c39}
+def c39_with_outpath(ctx):
+    if ctx.replay:
+        v = json.load(open(ctx.replay))
+        if isinstance(v.get("replay"), dict) and v["replay"].get("kind") == "outpath":
+            from families import outpath
+            return outpath.replay_outpath(ctx)
+    r = c39(ctx)
+    # a WebSocket connection takes one writer at a time: the schedules of the write path (spec/OutPath.tla) show that
+    # the broker never has two Write calls in progress on one connection (rule C39.overlapping-connection-writes)
+    from families import outpath
+    outpath.add_to(ctx, "C39")
+    return r
+
+
+FAMILY = {"C41": c41, "C31": c31, "C37": c37, "C39": c39_with_outpath}
